@@ -21,6 +21,7 @@ CONSTANTS
     Items,      \* keys used by histories
     Vals,       \* values ({0} for the set lattice)
     PairItems,  \* keys used by the exhaustive merge-pair scripts
+    LawItems,   \* keys used by the ACI triples (C01)
     MaxLen,     \* maximal history length of GenSpec
     EMIT
 
@@ -66,8 +67,43 @@ MapMerge(self, other, bots) ==
 ImplMerge(self, other, bots) ==
     IF VARIANT = "set" THEN SetMerge(self, other) ELSE MapMerge(self, other, bots)
 
-\* the lattice join the property describes
-RefJoin(a, b) == [live |-> LiveOf(a.live \cup b.live, a.tomb \cup b.tomb), tomb |-> a.tomb \cup b.tomb]
+\* (the lattice join the property describes is RefJoin of module Tombstone)
+
+(* transcription of the PartialOrd impls (values with key sets / maps of SetUnion values) *)
+\* set_cmp of set_union_with_tombstones.rs: by length, then containment
+PlainCmp(A, B) ==
+    IF Cardinality(A) < Cardinality(B) THEN (IF A \subseteq B THEN "lt" ELSE "none")
+    ELSE IF Cardinality(A) = Cardinality(B) THEN (IF A \subseteq B THEN "eq" ELSE "none")
+    ELSE (IF B \subseteq A THEN "gt" ELSE "none")
+\* set_cmp_filter(a, b, f1, f2)
+FilterCmp(A, B, F1, F2) ==
+    LET ag == \E k \in A \ F2 : k \notin B
+        bg == \E k \in B \ F1 : k \notin A
+    IN IF ag /\ bg THEN "none" ELSE IF ag THEN "gt" ELSE IF bg THEN "lt" ELSE "eq"
+SetCmp(a, b) ==
+    LET t == PlainCmp(a.tomb, b.tomb)
+        f == FilterCmp(Keys(a.live), Keys(b.live), a.tomb, b.tomb)
+    IN CASE t = "lt" -> (IF f \in {"lt", "eq"} THEN "lt" ELSE "none")
+         [] t = "eq" -> PlainCmp(Keys(a.live), Keys(b.live))
+         [] t = "gt" -> (IF f \in {"gt", "eq"} THEN "gt" ELSE "none")
+         [] OTHER -> "none"
+\* MapUnionWithTombstones::partial_cmp (a key's value = the set of its pairs' second components)
+ValOf(v, k) == {p[2] : p \in {q \in v.live : q[1] = k}}
+MapCmp(a, b) ==
+    LET stg == \E k \in a.tomb : k \notin b.tomb
+        otg == \E k \in b.tomb : k \notin a.tomb
+        ks == {k \in Keys(a.live) \cup Keys(b.live) : k \notin a.tomb /\ k \notin b.tomb}
+        both == {k \in ks : k \in Keys(a.live) /\ k \in Keys(b.live)}
+        incomparable == \E k \in both : ~(ValOf(a, k) \subseteq ValOf(b, k)) /\ ~(ValOf(b, k) \subseteq ValOf(a, k))
+        sg == (\E k \in ks : k \notin Keys(b.live)) \/ \E k \in both : ValOf(a, k) # ValOf(b, k) /\ ValOf(b, k) \subseteq ValOf(a, k)
+        og == (\E k \in ks : k \notin Keys(a.live)) \/ \E k \in both : ValOf(a, k) # ValOf(b, k) /\ ValOf(a, k) \subseteq ValOf(b, k)
+    IN IF stg /\ otg THEN "none"
+       ELSE IF incomparable \/ (sg /\ og) THEN "none"
+       ELSE IF (sg /\ otg) \/ (og /\ stg) THEN "none"
+       ELSE IF sg \/ stg THEN "gt"
+       ELSE IF og \/ otg THEN "lt"
+       ELSE "eq"
+ImplCmp(a, b) == IF VARIANT = "set" THEN SetCmp(a, b) ELSE MapCmp(a, b)
 
 -----------------------------------------------------------------------------
 ObsOf(res) == <<[b |-> "model", ch |-> res.ch, live |-> res.st.live, keys |-> Keys(res.st.live),
@@ -89,6 +125,18 @@ Load(r, live, tomb) ==
                                tomb |-> tomb, panic |-> FALSE]>>)
     /\ st' = [st EXCEPT ![r] = [live |-> live, tomb |-> tomb]]
     /\ UNCHANGED implbad
+
+\* ACI / order observations of the model itself on explicit values
+MObsLaw(a, b, c) ==
+    LET J(x, y) == ImplMerge(x, y, {}).st IN
+    <<[b |-> "model", panic |-> FALSE, ab |-> J(a, b), ba |-> J(b, a), aa |-> J(a, a),
+       abc1 |-> J(J(a, b), c), abc2 |-> J(a, J(b, c)), eqc |-> 1, eqi |-> 1, eqa |-> 1]>>
+MObsOrd(a, b) ==
+    <<[b |-> "model", panic |-> FALSE, cmp |-> ImplCmp(a, b), eq |-> IF a = b THEN 1 ELSE 0,
+       bota |-> IF a = Empty THEN 1 ELSE 0, botb |-> IF b = Empty THEN 1 ELSE 0, defbot |-> 1,
+       ch |-> ImplMerge(b, a, {}).ch]>>
+Law(a, b, c) == MLaw(a, b, c, MObsLaw(a, b, c)) /\ UNCHANGED <<st, implbad>>
+Ord(a, b) == MOrd(a, b, MObsOrd(a, b)) /\ UNCHANGED <<st, implbad>>
 
 -----------------------------------------------------------------------------
 (* free mode *)
@@ -126,11 +174,19 @@ PairScripts ==
        [op |-> "load", r |-> 2, live |-> b.live, tomb |-> b.tomb],
        [op |-> "merge", r |-> 1, s |-> 2]>> : a \in WellFormed, b \in WellFormed}
 
+\* C01 / C03 scripts: one law event per triple of values over LawItems x Vals, one order event
+\* per pair of well-formed values
+ValuesOver(K) ==
+    {s \in {[live |-> l, tomb |-> t] : l \in SUBSET (K \X Vals), t \in SUBSET K} : Keys(s.live) \cap s.tomb = {}}
+LawScripts == {<<[op |-> "law", a |-> t[1], b |-> t[2], c |-> t[3]]>> :
+                  t \in ValuesOver(LawItems) \X ValuesOver(LawItems) \X ValuesOver(LawItems)}
+OrdScripts == {<<[op |-> "ord", a |-> a, b |-> b]>> : a \in WellFormed, b \in WellFormed}
+
 GenInit ==
     /\ MInit(NRep)
     /\ st = [r \in 1..NRep |-> Empty]
     /\ implbad = {}
-    /\ script \in (Histories \cup PairScripts)
+    /\ script \in (Histories \cup PairScripts \cup LawScripts \cup OrdScripts)
     /\ hist = <<>>
 
 Step ==
@@ -141,7 +197,10 @@ Step ==
             [] o.op = "del" -> Delete(o.r, o.k)
             [] o.op = "merge" -> MergeFrom(o.r, o.s)
             [] o.op = "load" -> Load(o.r, o.live, o.tomb)
-       /\ hist' = Append(hist, [o |-> o, live |-> st'[o.r].live, tomb |-> st'[o.r].tomb])
+            [] o.op = "law" -> Law(o.a, o.b, o.c)
+            [] o.op = "ord" -> Ord(o.a, o.b)
+       /\ hist' = Append(hist, IF o.op \in {"law", "ord"} THEN [o |-> o, live |-> {}, tomb |-> {}]
+                               ELSE [o |-> o, live |-> st'[o.r].live, tomb |-> st'[o.r].tomb])
     /\ script' = Tail(script)
 
 GenDone == script = <<>> /\ UNCHANGED vars
@@ -155,6 +214,7 @@ Convergence == \A r, s \in 1..NRep :
     (seenIns[r] = seenIns[s] /\ seenDel[r] = seenDel[s]) => st[r] = st[s]
 C05Inv == NoRuleBroken /\ Disjoint /\ Exact /\ Convergence
 ImplInv == implbad = {}
+AlsoInv == also = {}        \* C01 / C02 / C03 on the transcribed merge / partial_cmp
 
 \* action property: a tombstoned key never reappears, tombstones never shrink
 NoResurrection == [][\A r \in 1..NRep : /\ st[r].tomb \subseteq st'[r].tomb
@@ -165,6 +225,7 @@ Emit == (EMIT /\ script = <<>> /\ hist # <<>>) =>
 
 \* the transcribed merges are the lattice join on well-formed values, hence idempotent,
 \* commutative and associative there
+ASSUME \A a, b \in WellFormed : ImplCmp(a, b) = RefOrd(a, b)
 ASSUME \A a, b \in WellFormed : ImplMerge(a, b, {}).st = RefJoin(a, b)
 ASSUME \A a, b \in WellFormed : ImplMerge(a, b, {}).ch = (RefJoin(a, b) # a)
 ASSUME \A a, b \in WellFormed : RefJoin(a, b) = RefJoin(b, a) /\ RefJoin(a, a) = a
